@@ -241,6 +241,7 @@ func (fv *FuncVer) heapKey(t types.Type) (string, *Sort) {
 	}
 	hs := fv.ctx.ArraySort(SInt, s)
 	fv.heapSorts[k] = hs
+	fv.heapTypes[k] = t
 	return k, hs
 }
 
@@ -249,6 +250,7 @@ func (fv *FuncVer) elemsKey(elem types.Type) (string, *Sort) {
 	k := "E:" + typeKey(types.Unalias(elem))
 	hs := fv.ctx.ArraySort(SInt, fv.ctx.ArraySort(fv.ctx.W, es))
 	fv.heapSorts[k] = hs
+	fv.heapTypes[k] = elem
 	return k, hs
 }
 
@@ -260,6 +262,11 @@ func (fv *FuncVer) heap(st *State, key string, s *Sort) *Term {
 	// entry snapshot and every path agree on it
 	h := fv.ctx.Const("heap0_"+sanitize(key), s)
 	st.heaps[key] = h
+	if st.old != nil && st.old.nextRef != nil {
+		if ax := fv.heapWF(key, h, st.old.nextRef); ax != nil {
+			st.assume(ax)
+		}
+	}
 	if st.old != nil && st.old != st {
 		if _, ok := st.old.heaps[key]; !ok {
 			st.old.heaps[key] = h
@@ -453,6 +460,56 @@ func (fv *FuncVer) locOf(v Val, elem types.Type) *Loc {
 // well-formedness facts about freshly materialised values
 
 func (fv *FuncVer) wf(st *State, v *Term, t types.Type, depth int) *Term {
+	return fv.wfBound(st.nextRef, v, t, depth)
+}
+
+// hasRefs: values of type t contain references (pointers, slices, maps) within `depth` struct levels.
+func hasRefs(t types.Type, depth int) bool {
+	switch u := types.Unalias(t).Underlying().(type) {
+	case *types.Pointer, *types.Map, *types.Chan, *types.Slice:
+		return true
+	case *types.Struct:
+		if depth <= 0 {
+			return false
+		}
+		for i := 0; i < u.NumFields(); i++ {
+			if hasRefs(u.Field(i).Type(), depth-1) {
+				return true
+			}
+		}
+	}
+	return false
+}
+
+// heapWF: every reference held anywhere in the store `key` is below `bound` (an allocation
+// counter value not smaller than the one at which the store last changed). Lets later
+// allocations be told apart from everything the store holds.
+func (fv *FuncVer) heapWF(key string, h, bound *Term) *Term {
+	t, ok := fv.heapTypes[key]
+	if !ok || h == nil || !hasRefs(t, 2) {
+		return nil
+	}
+	c := fv.ctx
+	r := BoundVar("r_q", SInt)
+	switch {
+	case strings.HasPrefix(key, "H:"):
+		if h.Sort.Elem == nil || h.Sort.Elem != c.SortOf(t) {
+			return nil
+		}
+		v := Select(h, r)
+		return Forall([]*Term{r}, fv.wfBound(bound, v, t, 2), v)
+	case strings.HasPrefix(key, "E:"):
+		if h.Sort.Elem == nil || h.Sort.Elem.Elem == nil || h.Sort.Elem.Elem != c.SortOf(t) {
+			return nil
+		}
+		j := BoundVar("j_q", c.W)
+		v := Select(Select(h, r), j)
+		return Forall([]*Term{r, j}, fv.wfBound(bound, v, t, 2), v)
+	}
+	return nil
+}
+
+func (fv *FuncVer) wfBound(bound *Term, v *Term, t types.Type, depth int) *Term {
 	c := fv.ctx
 	t = types.Unalias(t)
 	switch u := t.Underlying().(type) {
@@ -464,10 +521,10 @@ func (fv *FuncVer) wf(st *State, v *Term, t types.Type, depth int) *Term {
 			return c.WLe(c.WLit(0), c.StrLen(v))
 		}
 	case *types.Pointer, *types.Map, *types.Chan:
-		return And(ILe(IntLit(0), v), ILt(v, st.nextRef))
+		return And(ILe(IntLit(0), v), ILt(v, bound))
 	case *types.Slice:
 		base, off, ln, cp := Field(v, 0), Field(v, 1), Field(v, 2), Field(v, 3)
-		return And(ILe(IntLit(0), base), ILt(base, st.nextRef),
+		return And(ILe(IntLit(0), base), ILt(base, bound),
 			c.WLe(c.WLit(0), off), c.WLe(c.WLit(0), ln), c.WLe(ln, cp),
 			Implies(Eq(base, IntLit(0)), And(Eq(ln, c.WLit(0)), Eq(cp, c.WLit(0)))),
 			fv.sliceBound(off, cp))
@@ -484,7 +541,7 @@ func (fv *FuncVer) wf(st *State, v *Term, t types.Type, depth int) *Term {
 					continue
 				}
 			}
-			fs = append(fs, fv.wf(st, Field(v, i), ft, depth-1))
+			fs = append(fs, fv.wfBound(bound, Field(v, i), ft, depth-1))
 		}
 		return And(fs...)
 	}
@@ -498,7 +555,7 @@ func (fv *FuncVer) sliceBound(off, cp *Term) *Term {
 		s := fv.ctx.WAdd(off, cp)
 		return And(fv.ctx.WLe(off, s), fv.ctx.WLe(fv.ctx.WLit(0), s))
 	}
-	return ILe(IAdd(off, cp), BigLit(pow2(62), SInt))
+	return ILe(IAdd(off, cp), BigLit(pow2(60), SInt)) // no slice has 2^60 elements: sums of a few lengths do not overflow
 }
 
 func (fv *FuncVer) freshVal(st *State, name string, t types.Type) *Term {
